@@ -4,7 +4,7 @@ spec/Strip.tla: token shapes with declared partitions, Python's lexical structur
 reference scanner (class of every character), and a transcription of
 strip_string_literals.  TLC enumerates token sequences as states and checks the scanner
 against the declared partitions, lexical completeness, and the transcribed algorithm against
-the demands (off the labelled hazard tokens); every state is published.
+the demands (on every text); every state is published.
 
 Binding: the real strip_string_literals (snapshot of the working tree) runs on every
 published text.  Judged: (i) substituting the labels back (single pass, and the sequential
@@ -30,7 +30,7 @@ RULES = ["comment", "name", "code-char", "newline", "open1", "open3", "prefix", 
          "body-char", "escaped-quote", "backslash", "backslash-newline", "named-escape", "quote-in-triple",
          "other-quote", "hash-in-string", "doubled-brace", "field-open", "field-close", "field-char", "bracket",
          "spec-start", "spec-char", "spec-field", "neq"]
-ACTIONS = ["plain", "fstr", "hazard", "comment", "code", "EndLine"]   # Add<category> actions and EndLine
+ACTIONS = ["plain", "fstr", "comment", "code", "EndLine"]   # Add<category> actions and EndLine
 CONFIGS = {"quick": ["pairs", "triples"], "thorough": ["pairs", "triples_wide", "quads"]}
 
 
@@ -38,8 +38,8 @@ def collect(tier, cov):
     """Run TLC; return list of distinct cases (dicts) in a compact form."""
     cases = {}
     rules = set()
-    mbad = {}
     acts = {}
+    lens = {"sp": 1, "nl": 1, "glue": 0}      # characters per token / joiner name (from the one-token states)
     for cfg in CONFIGS[tier]:
         r = core.tlc_or_die("Strip", cfg="Strip_" + cfg, timeout=2400, heap="3g")
         cov["tlc"].append(dict(r.summary(), config=cfg))
@@ -53,10 +53,9 @@ def collect(tier, cov):
                 continue
             if len(c["ref"]) != len(text) or len(c["impl"]) != len(text):
                 core.die("published record inconsistent: %r" % (c,))
-            cases[text] = {"text": text, "names": c["names"], "ref": c["ref"], "impl": c["impl"],
-                           "hz": c["hz"] or "none", "hzpos": c["hzpos"], "mbad": c["mbad"]}
-            if c["mbad"]:
-                mbad[c["hz"]] = mbad.get(c["hz"], 0) + 1
+            cases[text] = {"text": text, "names": c["names"], "ref": c["ref"], "impl": c["impl"]}
+            if len(c["names"]) == 1:
+                lens[c["names"][0]] = len(text)
         del r
     # vacuity guard on the model: every scanner rule fired, every action taken
     missing = [x for x in RULES if x not in rules]
@@ -67,10 +66,12 @@ def collect(tier, cov):
             core.die("vacuous model: action %s never produced a state" % a)
     cov["states_by_action"] = acts
     cov["scanner_rules_fired"] = sorted(rules)
-    cov["model_predicted_bad_texts_by_hazard"] = mbad
     out = list(cases.values())
     for i, c in enumerate(out):
         c["id"] = i
+        c["lens"] = [lens[x] for x in c["names"]]
+        if sum(c["lens"]) != len(c["text"]):
+            core.die("token lengths do not add up: %r" % (c,))
     return out
 
 
@@ -93,19 +94,23 @@ def run_real(cases, tag):
 
 
 def where(c, idx):
-    if c["hz"] == "none":
-        return "no-hazard"
-    return "at-or-after-hazard" if idx + 1 >= c["hzpos"] else "before-hazard"
+    """Spec-side location of character idx: the name of the token shape (or separator) it belongs to."""
+    pos = 0
+    for k, (name, n) in enumerate(zip(c["names"], c.get("lens") or [])):
+        pos += n
+        if idx < pos:
+            return name if k % 2 == 0 else "separator"
+    return "n/a"
 
 
 def examine(c, res, stats=None):
     """All disagreements of one case: list of (desc, obs_class, detail)."""
     text, ref = c["text"], c["ref"]
-    base = {"hazard": c["hz"]}
-    det = {"text": text, "names": c["names"], "ref": ref}
+    base = {}
+    det = {"text": text, "names": c["names"], "lens": c.get("lens"), "ref": ref}
     out = []
     if "exc" in res:
-        return [(dict(base, part="strip", where=where(c, 0)), "exception", dict(det, got=res["exc"]))]
+        return [(dict(base, part="strip", where="n/a"), "exception", dict(det, got=res["exc"]))]
     stripped, literals = res["stripped"], res["literals"]
     det["stripped"] = stripped
     a, b = L.substitute_back(stripped, literals)
@@ -132,6 +137,9 @@ def examine(c, res, stats=None):
         out.append((dict(base, part="strip", where=where(c, idx)), oc, dict(det, kept=kx, first_bad=idx)))
     if stats is not None:
         stats["impl_model_mismatch"] += kx != c["impl"]
+        mb, rb = bool(L.judge(text, ref, c["impl"])), first is not None
+        stats["predicted_not_observed"] += mb and not rb
+        stats["observed_not_predicted"] += rb and not mb
         if kx != c["impl"] and len(stats["impl_model_mismatch_samples"]) < 5:
             stats["impl_model_mismatch_samples"].append({"text": text, "model": c["impl"], "real": kx})
         stats["spec_chars_kept"] += sum(1 for r, k in zip(ref, kx) if r == "S" and k == "K")
@@ -184,19 +192,20 @@ def run(tier, seed):
     for c in rng.sample(cases, 500):
         c["alt_prefix"] = "QZ_lbl"
     results, fail = run_real(cases, "all")
-    stats = {"impl_model_mismatch": 0, "impl_model_mismatch_samples": [], "spec_chars_kept": 0, "field_chars_stripped": 0,
+    stats = {"impl_model_mismatch": 0, "impl_model_mismatch_samples": [], "predicted_not_observed": 0, "observed_not_predicted": 0,
+             "spec_chars_kept": 0, "field_chars_stripped": 0,
              "deps_files": 0, "deps_nonempty": 0}
     n_eval = 0
     by_class = {}
     disagreeing = set()
     if results is None:
-        rep.disagree({"part": "harness-child", "hazard": "none", "where": "n/a"}, "crash", fail)
+        rep.disagree({"part": "harness-child", "where": "n/a"}, "crash", fail)
     else:
         for c in cases:
             n_eval += 1
             for desc, oc, det in examine(c, results[c["id"]], stats):
                 disagreeing.add(c["id"])
-                by_class[(desc["hazard"], desc["part"], oc)] = by_class.get((desc["hazard"], desc["part"], oc), 0) + 1
+                by_class[(desc["part"], desc["where"], oc)] = by_class.get((desc["part"], desc["where"], oc), 0) + 1
                 rep.disagree(desc, oc, det)
         # binding demonstration: corrupted expectations must be rejected
         good = [c for c in cases if c["id"] not in disagreeing and "L" in c["ref"] and "C" in c["ref"]]
@@ -213,7 +222,7 @@ def run(tier, seed):
         cov["binding_selftest"] = {"corrupted": len(sel), "rejected": bad}
 
     nontrivial = sum(1 for c in cases if "L" in c["ref"] or "M" in c["ref"])
-    smp = rng.sample(cases, 3) + [c for c in cases if c["mbad"]][:1]
+    smp = rng.sample(cases, 4)
     cov.update({
         "states": sum(t["states_generated"] for t in cov["tlc"]), "distinct_states": sum(t["distinct_states"] for t in cov["tlc"]),
         "transitions": sum(t["states_generated"] for t in cov["tlc"]),
@@ -222,9 +231,10 @@ def run(tier, seed):
         "rule": "texts = all token sequences of spec/Strip.tla up to the configured bounds (%s), each with and without a final "
                 "newline, separated by space / newline / nothing; distinct by text; non-trivial = contains at least one literal-body "
                 "or comment-body character" % ", ".join(CONFIGS[tier]),
-        "texts_with_hazard_token": sum(1 for c in cases if c["hz"] != "none"),
-        "disagreements_by_hazard_part_class": {"/".join(k): v for k, v in sorted(by_class.items())},
+        "disagreements_by_part_token_class": {"/".join(k): v for k, v in sorted(by_class.items())},
         "real_vs_transcription_mismatches": stats["impl_model_mismatch"],
+        "fidelity": {"transcription_bad_real_ok": stats["predicted_not_observed"],
+                     "real_bad_transcription_ok": stats["observed_not_predicted"]},
         "real_vs_transcription_mismatch_samples": stats["impl_model_mismatch_samples"],
         "no_demand_chars": {"format_spec_chars_kept": stats["spec_chars_kept"], "field_chars_stripped": stats["field_chars_stripped"]},
         "parse_dependencies_files": stats["deps_files"], "parse_dependencies_files_with_expected_deps": stats["deps_nonempty"],
@@ -239,7 +249,7 @@ def run(tier, seed):
     core.write_evidence(PROP, tier, seed, "model_checking", cov, time.time() - t0,
                         assumptions=["input texts do not contain the label prefix __Pyx_L themselves",
                                      "format-spec text and the expression part of replacement fields carry no demand (the documented behaviour keeps "
-                                     "them for f'..' and strips them with the whole body for F'..'/fr'..'); tokenize classes format-spec text as literal",
+                                     "them, whatever the f-string prefix); tokenize classes format-spec text as literal",
                                      "prefix letters, quote characters and '#' are kept by documented behaviour and treated like code",
                                      "line endings are \\n only; non-ASCII text is not generated"],
                         violations=rep.n_violations())
@@ -252,8 +262,8 @@ def replay(path, seed):
     rep = core.Reporter(PROP)
     cases = []
     for i, d in enumerate(rec["cases"]):
-        cases.append({"id": i, "text": d["text"], "names": d.get("names"), "ref": d["ref"], "impl": "", "hz": rec["descriptor"].get("hazard", "none"),
-                      "hzpos": 0, "mbad": False, "deps": any(w in d["text"] for w in L.DEP_WORDS)})
+        cases.append({"id": i, "text": d["text"], "names": d.get("names"), "ref": d["ref"], "impl": "", "lens": d.get("lens"),
+                      "deps": any(w in d["text"] for w in L.DEP_WORDS)})
     results, fail = run_real(cases, "replay")
     if results is None:
         core.die("child failed: %r" % (fail,))
